@@ -71,8 +71,11 @@ class Model_cfit(Model):
         data, weight = self.get_weight_data(data, weight)
         sw = tf.reduce_sum(weight)
         weight_norm = self.sum_resolution(weight)
-        sig_data = self.sum_resolution(weight * self.sig(data)) / weight_norm
-        bg_data = self.sum_resolution(weight * self.bg(data)) / weight_norm
+        dom_weight = tf.where(
+            weight_norm == 0, tf.ones_like(weight_norm), weight_norm
+        )
+        sig_data = self.sum_resolution(weight * self.sig(data)) / dom_weight
+        bg_data = self.sum_resolution(weight * self.bg(data)) / dom_weight
         if mc_weight is None:
             int_mc = tf.reduce_mean(self.sig(mcdata))
             int_bg = tf.reduce_mean(self.bg(mcdata))
@@ -83,6 +86,8 @@ class Model_cfit(Model):
             (1 - self.w_bkg) * sig_data / int_mc
             + self.w_bkg * bg_data / int_bg
         )
+        # events with zero weight do not contribute
+        ln_data = tf.where(weight_norm == 0, tf.zeros_like(ln_data), ln_data)
         nll_0 = -tf.reduce_sum(tf.cast(weight_norm, ln_data.dtype) * ln_data)
         return nll_0
 
